@@ -30,7 +30,7 @@ type BytesScript struct {
 
 // maxCheckedDepth: decoded values nested deeper than this are excluded from
 // the encode-side oracles (see checkBytes).
-const maxCheckedDepth = 6000
+const maxCheckedDepth = 4000
 
 var cBytes = newC("arbitrary-bytes")
 
@@ -239,5 +239,5 @@ func cutBytes(format string, b []byte) string {
 }
 
 func TestArbitraryBytes(t *testing.T) {
-	vt.Run(t, cBytes, vt.N(48000, 3000000), genBytes, runBytes)
+	vt.Run(t, cBytes, vt.N(48000, 2000000), genBytes, runBytes)
 }
